@@ -55,7 +55,8 @@ PROBES = {"same_size_edit": 1, "racy_same_granule_edit": 1,
           "status_reported_change": 1, "roundtrip_checked": 1,
           "kind_replacement": 1, "untracked_dir_collapsed": 1,
           "directory_became_file": 1, "type_change_same_bytes": 1,
-          "reset_hard": 1, "add_all": 1}
+          "reset_hard": 1, "add_all": 1, "reset_mixed": 1,
+          "staged_new_became_directory": 1}
 MIN_BUDGET = 200
 
 NAMES = [b"a.txt", b"b", b"dir/c.txt", b"dir/sub/d", b"x y.txt",
@@ -117,7 +118,7 @@ def gen_plan(seed, tier):
              "untracked", "to_link", "to_file", "to_dir", "stage", "stage",
              "unstage", "rm_cached", "commit", "switch", "switch", "touch",
              "rewrite_same", "dir_to_file", "to_link_same", "to_file_same",
-             "reset_hard", "add_all"]),
+             "reset_hard", "reset_hard", "add_all", "reset_mixed"]),
             "i": rng.randrange(100), "c": rng.randrange(10**6)})
     mode = rng.choice(["normal", "normal", "skewed", "racy", "racy"])
     gran = rng.choice([1, 1000, 4 * 10**6, 10**9, 2 * 10**9])
@@ -516,6 +517,15 @@ def run_plan(plan):
                     m.wd[p] = ("file", content(ed["c"]) or b"u", False)
                 elif op in ("to_link", "to_file", "to_dir"):
                     p = pick(present)
+                    if op == "to_dir":
+                        # prefer a file that is staged but not committed: a
+                        # later reset has to drop its entry although a
+                        # populated directory now sits there
+                        newly = [q for q in present if q in m.index and
+                                 q not in m.head and m.wd[q][0] == "file"]
+                        if newly and ed["c"] % 5 < 3:
+                            p = pick(newly)
+                            stats["probe:staged_new_became_directory"] = 1
                     if p is None:
                         continue
                     stats["probe:kind_replacement"] = 1
@@ -625,6 +635,25 @@ def run_plan(plan):
                                  f"{'symlink' if v[0] == 'link' else 'file'}")
                             break
                     tick("after_index_write")
+                elif op == "reset_mixed":
+                    try:
+                        porcelain.reset(r, "mixed", "HEAD")
+                    except Exception as e:  # noqa: BLE001
+                        viol(f"reset-mixed-raised/{type(e).__name__}",
+                             f"{label}: {e!r}")
+                        stopped[0] = True
+                        break
+                    stats["probe:reset_mixed"] = 1
+                    m.index = dict(m.head)
+                    tick("after_index_write")
+                    try:
+                        tid = r.open_index().commit(r.object_store)
+                        if tid != m.tree_id_of_index(None):
+                            viol("roundtrip-tree-id/after-reset-mixed",
+                                 f"{label}: index commits to {tid}")
+                    except Exception as e:  # noqa: BLE001
+                        viol(f"index-commit-raised/{type(e).__name__}",
+                             f"{label}: {e!r}")
                 elif op == "add_all":
                     try:
                         porcelain.add(r, [wt])
